@@ -369,7 +369,7 @@ class FileSystem(SimComponent):
             # Use root folder if folder_name not supplied
             folder = self.get_folder("root")
 
-        file = self.get_file(folder, file_name)
+        file = self.get_file(folder.name, file_name)
         if file:
             self.sys_log.info(f"Cannot create file {file_name} as it already exists.")
             if force:
